@@ -131,4 +131,47 @@ let () =
              | _ -> failwith "bad P op")
           | _ -> failwith "bad op") (String.split_on_char ' ' ops) in
       Printf.printf "%s\t%s\n" id (String.concat " " obs)
+    | "R" :: id :: xs :: _ ->
+      (* several callers redirected at once (Misc/Migrate.v): every outcome the protocol model can end in,
+         from the state in which all callers have written their request to A (address 0) and wait.
+         Data centres 2 and 12 live at address 1 (B), 3 at address 2 (C); B and C serve everybody; A answers
+         caller i with PHONE_MIGRATE_xs[i].  (A caller that A answers normally multiplies the state space by
+         its own positions only; it is left out here and judged by the direct expectation alone.) *)
+      let xl = List.map int_of_string (String.split_on_char '+' xs) in
+      let k = List.length xl in
+      let total = k in
+      let rec int_of_nat n = match n with O -> 0 | S m -> 1 + int_of_nat m in
+      let pol a i =
+        if int_of_nat a = 0 then
+          (let j = int_of_nat i in if j < k then Some (nat_of_int (List.nth xl j)) else None)
+        else None in
+      let dcs x = match int_of_nat x with 2 | 12 -> nat_of_int 1 | 3 -> nat_of_int 2 | _ -> nat_of_int 9 in
+      let s0 = ref (init (nat_of_int total) O) in
+      for i = 0 to total - 1 do
+        List.iter (fun l -> match step pol dcs !s0 l with Some s -> s0 := s | None -> failwith "R: set-up step refused")
+          [LSend (nat_of_int i); LRUnlock (nat_of_int i)]
+      done;
+      let labs = labels (nat_of_int total) in
+      let visited = Hashtbl.create 4096 in
+      let outcomes = Hashtbl.create 16 in
+      let name a = match a with 0 -> "A" | 1 -> "B" | 2 -> "C" | _ -> "?" in
+      let project s =
+        let lg = List.map (fun (a, i) -> (int_of_nat a, int_of_nat i)) s.log in
+        let cnt a i = List.length (List.filter (fun (b, j) -> a = b && i = j) lg) in
+        let callers = List.mapi (fun i c ->
+            let by = match c.c_pc with Done a -> name (int_of_nat a) | _ -> "-" in
+            if i < k then Printf.sprintf "c%d=A%dB%dC%d>%s" i (cnt 0 i - 1) (cnt 1 i) (cnt 2 i) by
+            else Printf.sprintf "n=%s" by) s.cs in
+        let op = List.map int_of_nat s.opened in
+        let oc a = List.length (List.filter (fun b -> a = b) op) in
+        String.concat ";" (callers @ [Printf.sprintf "conns=A%dB%dC%d" (oc 0) (oc 1) (oc 2); "addr=" ^ name (int_of_nat s.addr)]) in
+      let rec explore s =
+        if not (Hashtbl.mem visited s) then begin
+          Hashtbl.add visited s ();
+          let next = List.filter_map (fun l -> step pol dcs s l) labs in
+          if next = [] then Hashtbl.replace outcomes (project s) () else List.iter explore next
+        end in
+      explore !s0;
+      let outs = List.sort compare (Hashtbl.fold (fun o () acc -> o :: acc) outcomes []) in
+      Printf.printf "%s\t%d\t%s\n" id (Hashtbl.length visited) (String.concat "|" outs)
     | _ -> ())
